@@ -173,7 +173,7 @@ impl Driver {
         }
         let mut mid = mid;
         // Byzantine sender / corruption in flight: replace by a forged message
-        if Some(from) == self.byz || rate(w, "corrupt") > 0 || rate(w, "restamp") > 0 {
+        if Some(from) == self.byz || rate(w, "corrupt") > 0 || rate(w, "restamp") > 0 || rate(w, "script_mut") > 0 {
             if let Some(ops) = crate::profiles::draw_forge(w, rng, mid, from, self.byz) {
                 let e = self.eid();
                 let by = if Some(from) == self.byz { self.byz } else { None };
@@ -275,6 +275,9 @@ impl Driver {
                     let mut bogus = vec![];
                     if hit(rng, rate(w, "bogus_ids")) {
                         bogus = crate::profiles::draw_bogus(w, rng, peer);
+                    }
+                    if hit(rng, rate(w, "raw_results")) {
+                        bogus.push(("__RAW__".into(), 0, crate::tamper::hex(&crate::fuzz::random_call_results(rng))));
                     }
                     if feed.is_empty() && bogus.is_empty() {
                         continue;
